@@ -41,9 +41,47 @@ Theorem T_C02_mp_read_str_total : forall o d, Forall (fun b => b < 256) d -> rre
 Proof. exact read_str_total. Qed.
 Print Assumptions T_C02_mp_read_str_total.
 
+(* ---- the other text loaders: the same statement on their models (proved in their families, restated here
+   because C02 quantifies over every loader) ---- *)
+From BS Require Import CsvSpec CsvModel CsvTotalProofs CsvStreamTotal.
+
+(* CSV, memory and stream reader with any chunk size, on ARBITRARY text: rows or a catchable error; never out of
+   fuel (every line consumes at least one byte), never the model's UB outcome (no access outside the decoded
+   buffer during in-place unescaping), never a foreign exception *)
+Theorem T_C02_csv_load_total : forall sep keys text, clean (csv_load sep keys text).
+Proof. exact csv_load_total. Qed.
+Print Assumptions T_C02_csv_load_total.
+Theorem T_C02_csv_load_stream_total : forall K sep keys text, (0 < K)%nat -> clean (csv_load_stream K sep keys text).
+Proof. exact csv_load_stream_total. Qed.
+Print Assumptions T_C02_csv_load_stream_total.
+
+From BS Require Import NumSpec NumModel NumTextLemmas NumTextProofs.
+
+(* number text (Convert::To<integer> of any string width, the path every text archive uses for numbers): a value,
+   out_of_range or invalid_argument on EVERY unit string *)
+Theorem T_C02_number_parse_total : forall T w s, units w s ->
+  (exists v, parse_num T w s = COk v) \/ parse_num T w s = COutOfRange \/ parse_num T w s = CInvalidArgument.
+Proof. exact parse_total. Qed.
+Print Assumptions T_C02_number_parse_total.
+
+From BS Require Import StreamIStream StreamSpec StreamModel StreamEsrProofs.
+
+(* encoded stream reader (CSV / text streams in any UTF encoding) on EVERY byte stream and chunk size: the read loop
+   ends with EndFile or DecodeError after at most length-many chunks: no hang *)
+Theorem T_C02_encoded_stream_progress : forall K tgt pol mark data sk fuel,
+  (K mod 4 = 0)%nat -> (32 <= K)%nat -> bytes data -> (length data < fuel)%nat ->
+  exists k c out ty,
+    esr_run K tgt pol mark fuel (stream_of data sk) = RunDone (repeat ChSuccess k ++ [c]) out ty /\
+    (c = ChEndFile \/ c = ChDecodeError) /\ (k <= length data)%nat.
+Proof.
+  intros K tgt pol mark data sk fuel H4 H32 Hb Hf.
+  exact (esr_run_total K H4 H32 tgt pol mark data Hb sk fuel Hf).
+Qed.
+Print Assumptions T_C02_encoded_stream_progress.
+
 (* NOT PROVED / outside any Gallina model: C++ object lifetime and memory safety, recursion depth
    (finding F19: SkipValueImpl recurses once per nesting level, a 200 kB document of nested arrays
    overflows the stack), allocation proportional to the input (finding F20: resize(declared count)
-   from a 5-byte header), exceptions escaping destructors (finding F17, property C20).  The CSV,
-   chrono, numeric and stream-reader families state their own totality theorems in their property
-   files (C09, C15, C16, C10, C13). *)
+   from a 5-byte header), exceptions escaping destructors (findings F17 F18, repaired; property C20).  Further totality theorems
+   live with their families: the MsgPack scope destructors (T_C03_close_*_total), the ISO-8601 parsers (C15), the
+   chunked binary stream reader (C10), the reference JSON / XML parsers (C08). *)
